@@ -315,8 +315,10 @@ class LRI(dict):
                 return True
             if len(other) != len(self):
                 return False
-            if not isinstance(other, LRI):
-                return other == self
+            # NB: dict.__eq__ returns NotImplemented for non-dicts,
+            # letting *other* decide. Calling ``other == self`` here
+            # would re-enter this method forever for plain dicts, as
+            # Python tries a subclass's reflected __eq__ first.
             return super().__eq__(other)
 
     def __ne__(self, other):
